@@ -219,3 +219,9 @@ pub fn spec_step(q: Q, b: &[u8; 10]) -> (Cls, Option<Q>) {
         Q::CTdh => (Cls::TdhCont, Some(Q::CData)),
     }
 }
+
+/// Stub for `alloc::fmt::format`: an empty String (no heap allocation). Text is never part of a
+/// proved postcondition; this removes the dominant CBMC cost on error paths.
+pub fn stub_format(_args: core::fmt::Arguments<'_>) -> String {
+    String::new()
+}
